@@ -43,6 +43,17 @@ Theorem C16_symmetric_in_latitude : forall a f GM w lat h,
 Proof. intros. split; [apply g_symmetric|apply g0_symmetric]. Qed.
 Print Assumptions C16_symmetric_in_latitude.
 
+(* both public classes (ReferenceEllipsoid and the WGS subclass, positional and keyword arguments), for ALL reals, in
+   particular for a flattening or rotation rate that is exactly 0: the object holds the parameters it was given,
+   b = a(1-f), and the WGS route yields the very same gravity, potential and form factor as ReferenceEllipsoid *)
+Theorem C16_both_classes : forall a f GM w lat h,
+  C16_echo_R a f GM w = Val [a; f; GM; w; a*(1-f)] /\ C16_echo_kw_R a f GM w = Val [a; f; GM; w; a*(1-f)] /\
+  C16_wgs_echo_R a f GM w = Val [a; f; GM; w; a*(1-f)] /\ C16_wgs_echo_kw_R a f GM w = Val [a; f; GM; w; a*(1-f)] /\
+  C16_wgs_ge_R a f GM w = C16_ge_R a f GM w /\ C16_wgs_gp_R a f GM w = C16_gp_R a f GM w /\
+  C16_wgs_g_R a f GM w lat h = C16_g_R a f GM w lat h /\ C16_wgs_U0_J2_R a f GM w = C16_ref_U0_J2_R a f GM w.
+Proof. exact both_classes. Qed.
+Print Assumptions C16_both_classes.
+
 (* international_gravity, all five epochs: latitude guard, equator and pole values, symmetry, range, positivity *)
 Theorem C16_international_gravity :
   igf_ok C16_intl_1930_R (978049/100000) (52884/10000000) /\
